@@ -26,20 +26,17 @@ TReset == /\ Ev("reset")
           /\ l' = l + 1 /\ UNCHANGED <<stack, deco, obs>>
 
 THash == /\ Ev("hash") /\ pc = "loaded"
-         /\ LET e == TraceLog[l]
-                base == AllRuns(g, 1, Deviations)
-                cx == [base |-> base, bst |-> StableBits(g, base),
-                       vis |-> <<Visited(g, FlagAt(1)), Visited(g, FlagAt(5))>>,
-                       mu |-> [fi \in 1..8 |-> MayBeUnstable(g, fi)]]
-                j == Judge(g, e.t, cx)
-            IN /\ e.t \in Transforms(g, TRUE) \cup Transforms(g, FALSE)
+         /\ LET e == TraceLog[l] IN
+            \E j \in {Judge(g, e.t, Cx(g))} :        \* (bound once: TLC evaluates a LET definition again at every use)
+               /\ e.t \in Transforms(g, TRUE) \cup Transforms(g, FALSE)
                /\ e.tg = CanonG(ApplyT(g, e.t))          \* the driver applied the transformation the model means
                \* the algorithm as designed (with the configured deviations); where a deviation makes the hash
                \* depend on the map iteration order, the comparison of two hashes can come out either way
+               \* (nothing is claimed for a flag combination under which the documentation does not decide: j.na)
                /\ e.st = j.st /\ e.equals = Bit(j.st, EqualFlags)
-               /\ \A fi \in 1..8 : Bit(j.st, fi) => Bit(e.eq, fi) = Bit(j.eq, fi)
-               /\ Bit(j.st, EqualFlags) => e.equal = Bit(j.eq, EqualFlags)
-               /\ Deviations = {} => (j.eq = j.exp /\ j.st = 255)   \* ... which is the documented table
+               /\ \A fi \in 1..8 : Bit(j.st, fi) /\ ~Bit(j.na, fi) => Bit(e.eq, fi) = Bit(j.eq, fi)
+               /\ Bit(j.st, EqualFlags) /\ ~Bit(j.na, EqualFlags) => e.equal = Bit(j.eq, EqualFlags)
+               /\ Deviations = {} => (Without(j.eq, j.na) = Without(j.exp, j.na) /\ j.st = 255)   \* ... which is the documented table
          /\ l' = l + 1 /\ UNCHANGED vars
 
 TDup == /\ Ev("dup") /\ pc = "loaded"
